@@ -271,8 +271,21 @@ class StmtMixin(BuiltinMixin):
             if isinstance(v, Raise):
                 out.append((s, v))
             else:
-                out.extend(self.fork(s, ops.truth(s, v)))
+                for s2, t in self.truth_of(s, ctx, v, getattr(test, "lineno", 0)):
+                    out.extend([(s2, t)] if isinstance(t, Raise) else self.fork(s2, t))
         return out
+
+    def truth_of(self, st: State, ctx: Ctx, v: Any, line: int):
+        """Truth value, calling __bool__/__len__ of (model or repo) objects that define them."""
+        if isinstance(v, Ref) and META[v.oid].kind == "object" and isinstance(META[v.oid].cls, ClassVal):
+            ci = META[v.oid].cls.ci
+            for nm in ("__bool__", "__len__"):
+                if self.P.find_method(ci, nm) is not None:
+                    out = []
+                    for s2, r in self.call_method(st, ctx, v, nm, [], {}, line):
+                        out.append((s2, r if isinstance(r, Raise) else ops.truth(s2, r)))
+                    return out
+        return [(st, ops.truth(st, v))]
 
     def st_If(self, s, st, ctx):
         if isinstance(s.test, ast.Name) and s.test.id == "TYPE_CHECKING":
